@@ -11,6 +11,8 @@ int main(int argc, char **argv)
     if (argc > 5) c.client_auth = atoi(argv[5]);
     if (argc > 6) c.early_data = atoi(argv[6]);
     if (argc > 7) c.tickets = atoi(argv[7]);
+    if (argc > 8) c.early_send = atoi(argv[8]);
+    if (argc > 9) c.resume13 = atoi(argv[9]);
     cfg_desc(&c, d, sizeof d);
     rc = world_init(&w, &c);
     printf("%s init %d\n", d, rc);
